@@ -157,9 +157,10 @@ pub fn decode_with(data: &[u8], plan: &Plan) -> (io::Result<Beatmap>, Option<usi
 
 // ------------------------------------------------------------ stored-byte faults
 
-const BAD_NUMBERS: [&str; 22] = [
+const BAD_NUMBERS: [&str; 30] = [
     "nan", "NaN", "-nan", "inf", "-inf", "1e400", "-1e400", "2147483647", "2147483648", "-2147483648",
     "-2147483649", "131072", "131073", "-131073", "9000", "9001", "0", "-0", "1e-320", "", "abc", "1e9",
+    "2147483647", "-2147483647", "2147483000", "2000000000", "-2000000000", "16777217", "131072", "-131072",
 ];
 
 fn split_lines(data: &[u8]) -> Vec<Vec<u8>> {
@@ -167,7 +168,7 @@ fn split_lines(data: &[u8]) -> Vec<Vec<u8>> {
 }
 
 /// Applies one storage fault; returns its name.
-fn storage_fault(rng: &mut Rng, data: &mut Vec<u8>) -> &'static str {
+pub fn storage_fault(rng: &mut Rng, data: &mut Vec<u8>) -> &'static str {
     if data.is_empty() {
         data.extend_from_slice(b"osu file format v14\n");
         return "fill_empty";
